@@ -288,6 +288,21 @@ func c18Cells(c *Ctx, s string) {
 			c.Rec.Violate("Cell.Width!=LongestLineCells", fmt.Sprintf("cell of %s item with text %q: TerminalCellWidth()=%d but LongestLineCells(text)=%d", k.name, text, w, want),
 				map[string]interface{}{"item_kind": k.name, "text": gen.Q(text)})
 		}
+		// what Lines() returned is the caller's: it may sort, trim or overwrite the elements of its slice, and the cell
+		// still splits its own text the same way afterwards
+		if len(lines) > 0 {
+			scribbled := cell.Lines()
+			for i := range scribbled {
+				scribbled[i] = "overwritten by the caller"
+			}
+			again := cell.Lines()
+			want := length.Lines(text)
+			if strings.Join(again, "\n") != strings.Join(want, "\n") || len(again) != len(want) {
+				c.Rec.Violate("Cell.Lines:changed-by-the-caller's-writes", fmt.Sprintf("cell of %s item with text %q: after the caller overwrote the elements of the slice an earlier Lines() call returned, Lines() gives %q", k.name, text, again),
+					map[string]interface{}{"item_kind": k.name, "text": gen.Q(text)})
+				return
+			}
+		}
 		if strings.Join(lines, "\n") != strings.Join(length.Lines(text), "\n") || len(lines) != len(length.Lines(text)) {
 			c.Rec.Violate("Cell.Lines!=Lines(text)", fmt.Sprintf("cell of %s item with text %q: Lines()=%q differs from length.Lines(text)=%q", k.name, text, lines, length.Lines(text)),
 				map[string]interface{}{"item_kind": k.name, "text": gen.Q(text)})
